@@ -187,7 +187,7 @@ pub fn check_net(scratch: &Scratch, net: &Net, ni: usize, tier: Tier, st: &mut S
                 };
                 let comp = format!("{}.{}{}{}", fname, if ai == 0 { "single_route" } else { "several_routes" }, if short { ".geometry_table_one_row_short" } else { "" }, match (do_route, do_tree) { (true, false) => ".route_only", (false, true) => ".tree_only", _ => "" });
                 let size = net.size();
-                let case = || json!({"net": net, "format": fname, "algo": algo, "geometry_table_one_row_short": short, "render_route": do_route, "render_tree": do_tree, "geometries": geoms, "uuids": spec.uuids, "uuid_file_gzip": ni % 2 == 0});
+                let case = || json!({"net": net, "format": fname, "algo": algo, "geometry_table_one_row_short": short, "render_route": do_route, "render_tree": do_tree, "geometries": geoms, "uuids": spec.uuids, "uuid_file_gzip": ni % 2 == 0, "net_index": ni});
                 let uses_missing = short && ((do_route && routes.iter().any(|r| r.contains(&(m - 1)))) || (do_tree && tree_edges.iter().any(|t| t.contains(&(m - 1)))));
                 let needs_geometry = matches!(*fname, "geo_json" | "wkt" | "wkb");
                 if out.get("error").is_some() {
@@ -411,6 +411,31 @@ pub fn run(tier: Tier) -> i32 {
 }
 
 pub fn replay(case: &Value) -> i32 {
-    println!("C20 replay of {}: re-running the quick tier (files are regenerated by the check)", case.get("format").cloned().unwrap_or(Value::Null));
-    run(Tier::Quick)
+    // the recorded network is rendered again in every format, with every table variant (its index decides the identifier
+    // table variant, so it is part of the case); application-level cases re-run the application pass
+    let c = if case.get("case").is_some() { &case["case"] } else { case };
+    let scratch = Scratch::new("c20r");
+    let mut st = Stats::new();
+    if c.get("app_level").is_some() {
+        app_level(&scratch, &mut st);
+    } else {
+        let net: Net = match serde_json::from_value(c["net"].clone()) {
+            Ok(n) => n,
+            Err(e) => {
+                println!("MACHINERY-ERROR cannot parse net: {}", e);
+                return 2;
+            }
+        };
+        let ni = c["net_index"].as_u64().unwrap_or(0) as usize;
+        check_net(&scratch, &net, ni, Tier::Thorough, &mut st);
+    }
+    for (k, g) in st.violations.iter() {
+        println!("REPLAY-VIOLATION {} ({} cases) {}", k, g.count, g.detail.chars().take(500).collect::<String>());
+    }
+    println!("replay: {} violated clauses over {} renderings", st.violations.len(), st.evaluations);
+    if st.violations.is_empty() {
+        0
+    } else {
+        1
+    }
 }
